@@ -1,6 +1,7 @@
 package checks
 
 import (
+	"path/filepath"
 	"fmt"
 	"os"
 	"reflect"
@@ -362,7 +363,94 @@ func c05Run(c c05Case, r *hx.Rec) error {
 			}
 		}
 	}
+	if wantAccept && multi {
+		// the link directory is an input of every verification: when a counted link is replaced between two
+		// verifications - by a file of the same length, with the time stamp of the old one (rsync -t, tar) -
+		// the second verification sees the links that are there now
+		if err := c05Replace(b, w, layCopy, r); err != nil {
+			return err
+		}
+	}
 	return c05Reduce(b, layCopy, agree)
+}
+
+// c05Replace overwrites one counted link of a step with several counted links by a disagreeing link of
+// the same length and modification time and verifies again.
+func c05Replace(b *hx.Built, w hx.World, lay hx.MLayout, r *hx.Rec) error {
+	for _, st := range lay.Steps {
+		var counted []int
+		for _, i := range stepLinks(w, st.Name) {
+			if c05Counted(st, w.Links[i]) {
+				counted = append(counted, i)
+			}
+		}
+		if len(counted) < 2 {
+			continue
+		}
+		f := w.Links[counted[len(counted)-1]]
+		if f.InCwd || f.Special != "" || f.Meta.Link == nil {
+			continue
+		}
+		l := *f.Meta.Link
+		l.Materials, l.Products = copyArtifacts(l.Materials), copyArtifacts(l.Products)
+		changed := false
+		for _, arts := range []hx.MArtifacts{l.Products, l.Materials} {
+			for _, p := range sortedArtifactKeys(arts) {
+				if d := arts[p]["sha256"]; len(d) > 1 && !changed {
+					last := "0"
+					if d[len(d)-1] == '0' {
+						last = "1"
+					}
+					arts[p]["sha256"] = d[:len(d)-1] + last
+					changed = true
+				}
+			}
+		}
+		if !changed {
+			continue
+		}
+		f.Meta = hx.MMeta{Link: &l}
+		path := filepath.Join(b.LinkDir, f.Name)
+		old, err := os.ReadFile(path)
+		if err != nil {
+			return nil
+		}
+		info, err := os.Stat(path)
+		if err != nil {
+			return nil
+		}
+		var fresh []byte
+		for try := 0; try < 8; try++ { // (ECDSA signatures vary in length: sign again until the file is as long as the old one)
+			nb, err := b.FileBytes(f)
+			if err != nil {
+				return nil
+			}
+			if len(nb) == len(old) {
+				fresh = nb
+				break
+			}
+		}
+		if fresh == nil {
+			r.Label("replacement-of-other-length")
+			return nil
+		}
+		if err := os.WriteFile(path, fresh, 0o644); err != nil {
+			return nil
+		}
+		_ = os.Chtimes(path, info.ModTime(), info.ModTime())
+		r.Label("counted-link-replaced-between-verifications")
+		out := b.Verify()
+		_ = os.WriteFile(path, old, 0o644) // (put back for what follows)
+		_ = os.Chtimes(path, info.ModTime(), info.ModTime())
+		if out.Panic != nil {
+			return fmt.Errorf("verification after replacing a link panicked: %v", out.Panic)
+		}
+		if !out.Rejected() {
+			return fmt.Errorf("the counted link %s was replaced (same length, same modification time) by one that reports another digest than the other counted links of step %q: the next verification in this process still accepted", f.Name, st.Name)
+		}
+		return nil
+	}
+	return nil
 }
 
 func c05Authorised(st hx.MStep, keyName string) bool {
